@@ -258,17 +258,19 @@ func c10Confine(rc *RuleCtx) {
 		return
 	}
 	param := f.Params[1]
-	for i, r := range returnsOf(f) {
+	// obligations are keyed by WHAT is returned, not by the ordinal of the return statement: splitting or merging
+	// the conditions that lead to the same result must not change the keys
+	for _, r := range returnsOf(f) {
 		v := resolve1(r.Results[0])
-		cons := fmt.Sprintf("%s return#%d", funcName(f), i+1)
 		if isFieldLoad(v, "basePath") {
-			rc.good(cons, r.Pos(), "returns the base path itself")
+			rc.good(funcName(f)+" returns the base path", r.Pos(), "returns the base path itself")
 			continue
 		}
 		if strip(v) == ssa.Value(param) {
-			rc.bad(cons, r.Pos(), "returns the caller's path unmodified: a relative path is resolved by the base against its own working directory, so '..' elements leave the base directory")
+			rc.bad(funcName(f)+" returns the caller's path unchanged", r.Pos(), "returns the caller's path unmodified: a relative path is resolved by the base against its own working directory, so '..' elements leave the base directory")
 			continue
 		}
+		cons := funcName(f) + " returns a path built from the argument"
 		how, ok := confinedJoin(rc, f, v, param, r)
 		if ok {
 			rc.good(cons, r.Pos(), how)
